@@ -81,6 +81,18 @@ Theorem c17_treg_one_step :
 Proof. exact treg_pipeline_proof. Qed.
 Print Assumptions c17_treg_one_step.
 
+(* across memory: in every history whose externally stored signatures are
+   themselves within one step, every reported action is the action that belongs
+   to the reported level or exactly one step below it — a remembered (already
+   lowered) response is not lowered again on recall *)
+Theorem c17_action_within_one_step_of_level :
+  forall rnd g ops s0 s p r sp,
+    mem_ok (s_mem s0) -> Forall op_ok ops ->
+    In (s, OInspect (Some p), OutResp r sp) (run rnd false g s0 ops) ->
+    within_one_step (r_level r) (r_action r).
+Proof. exact within_one_step_proof. Qed.
+Print Assumptions c17_action_within_one_step_of_level.
+
 (* RegulatoryTCell.evaluate on ANY response record (also ones the T cell never
    produces): original action reported faithfully; unsuppressed = unchanged; at
    most one step down unless the response is ALERT or a SUSPICIOUS response
@@ -133,6 +145,34 @@ Theorem c17_self_tolerance_after_training :
         silent r /\ r_viol r = [] /\ r_s1 r = S1Self.
 Proof. exact self_tolerance_proof. Qed.
 Print Assumptions c17_self_tolerance_after_training.
+
+(* The display.  For every history of API calls (record_observation,
+   record_canary_result, clear, inspect, train_agent, and any other operation)
+   from any display whose window is not over-full, and every fingerprint
+   function [pf] (the statistics / hashes oracle): the inspection (training) at
+   any position judges exactly [pf] of the CURRENT window — the last
+   [window_size] observations recorded so far (since the last clear) and the
+   canary results so far — or no fingerprint below [min_observations]; and that
+   verdict is an element of the system-level trace [run ...], so every theorem
+   above applies to the current window. *)
+Theorem c17_inspect_uses_current_window :
+  forall pf rnd lg g d0 s0 pre post,
+    (length (d_obs d0) <= d_size d0)%nat ->
+    let w := lastn (d_size d0) (recorded (d_obs d0) pre) in
+    let c := canaries (d_canary d0) pre in
+    let fp := fingerprint_of pf (d_min d0) w c in
+    (exists d s out s',
+       nth_error (api_run pf rnd lg g d0 s0 (pre ++ AInspect :: post)) (length pre) = Some (d, s, AInspect, out) /\
+       d_obs d = w /\ d_canary d = c /\
+       sys_step rnd lg g s (OInspect fp) = (s', out) /\
+       In (s, OInspect fp, out) (run rnd lg g s0 (lowered pf d0 (pre ++ AInspect :: post)))) /\
+    (exists d s out s',
+       nth_error (api_run pf rnd lg g d0 s0 (pre ++ ATrain :: post)) (length pre) = Some (d, s, ATrain, out) /\
+       d_obs d = w /\ d_canary d = c /\
+       sys_step rnd lg g s (OTrain fp) = (s', out) /\
+       In (s, OTrain fp, out) (run rnd lg g s0 (lowered pf d0 (pre ++ ATrain :: post)))).
+Proof. exact current_window_proof. Qed.
+Print Assumptions c17_inspect_uses_current_window.
 
 (* the finite decision tables enumerated from the implementation on this run
    (TCell._determine_response over signal1 x signal2 x 0..4 violations x canary
